@@ -802,7 +802,9 @@ impl Add<HalfPel> for HalfPel {
     type Output = HalfPel;
 
     fn add(self, rhs: Self) -> Self {
-        HalfPel(self.0 + rhs.0)
+        // Unrestricted motion vector differentials are only limited by their code
+        // length, so a corrupt stream can accumulate predictors beyond `i16`.
+        HalfPel(self.0.saturating_add(rhs.0))
     }
 }
 
